@@ -5,6 +5,12 @@ import PMV.Lemmas.AlgebraQuat
 import PMV.Lemmas.AlgebraMat3T
 import PMV.Lemmas.AlgebraSum
 import PMV.Lemmas.AlgebraIndex
+import PMV.Lemmas.AlgebraRoll
+import PMV.Lemmas.AlgebraQEuler
+import PMV.Lemmas.AlgebraSO3
+import PMV.Lemmas.AlgebraToEuler
+import PMV.Lemmas.AlgebraToEulerGimbal
+import Mathlib.Tactic.Linarith
 import Mathlib.Tactic.Ring
 import Mathlib.Tactic.LinearCombination
 import Mathlib.Tactic.FieldSimp
@@ -185,14 +191,10 @@ end outer
 section cross
 variable {K : Type} [Mul K] [Sub K]
 
--- FULL: for all numerator ranks r1, r2, axes a1, a2 of length 3 (resp. 2) and denominators,
---   crossItem a b ax1 ax2 = ok r with r.numer = a.numer (axis a1 kept, length 3) ++ b.numer.eraseIdx a2 and
---   r.get (insAt a1 c o1 ++ o2 ++ d1 ++ d2) = Σ_{j,k} ε(c,j,k) a[insAt a1 j o1 ++ d1] · b[insAt a2 k o2 ++ d2]
---   (ε the Levi-Civita symbol); for length 2 the axis disappears and ε is the 2×2 symplectic form.
-/-- **cross_eq_ref** for vector operands (the case `Vector.cross` uses: `cross(self, arg, 0, 0)`):
+/-- the special case `Vector.cross` uses (`cross(self, arg, 0, 0)` on plain vectors), evaluated directly:
     the reshape / roll / `cross_3x3` / roll-back pipeline yields the textbook cross product, and for
     2-vectors `cross_2x2` yields the scalar a₀b₁ − a₁b₀ -/
-theorem cross_eq_ref_partial (a b : Nat → K) :
+theorem cross_vectors_eq_ref (a b : Nat → K) :
     (∃ r, crossItem (vecItem 3 a) (vecItem 3 b) 0 0 = .ok r ∧ r.numer = [3] ∧ r.denom = [] ∧
       r.get [0] = a 1 * b 2 - a 2 * b 1 ∧ r.get [1] = a 2 * b 0 - a 0 * b 2 ∧ r.get [2] = a 0 * b 1 - a 1 * b 0) ∧
     (∃ r, crossItem (vecItem 2 a) (vecItem 2 b) 0 0 = .ok r ∧ r.numer = [] ∧ r.denom = [] ∧
@@ -204,6 +206,112 @@ theorem cross_eq_ref_partial (a b : Nat → K) :
     simp [insAt, bz, rollEnd, pad1, pad2, vecItem]
 end cross
 
+
+section crossfull
+variable {K : Type} [Mul K] [Sub K]
+
+/-- the textbook cross product component `c` of two 3-vectors given as functions of the axis index -/
+def crossRef (f g : Nat → K) (c : Nat) : K :=
+  match c with
+  | 0 => f 1 * g 2 - f 2 * g 1
+  | 1 => f 2 * g 0 - f 0 * g 2
+  | _ => f 0 * g 1 - f 1 * g 0
+
+/-- **cross_eq_ref.** `Qube.cross(arg1, arg2, axis1, axis2)` with its reshape / rollaxis / `cross_3x3` /
+    roll-back (resp. `cross_2x2`) bookkeeping equals the Levi-Civita reference for every numerator rank, every
+    axis pair, and every denominator: for axis length 3 the new axis sits at position a1,
+    result[o1 with c at a1 ++ o2 ++ d1 ++ d2] = (a[o1 with · at a1 ++ d1] × b[o2 with · at a2 ++ d2])_c ;
+    for axis length 2 the axis disappears and the result is a₀b₁ − a₁b₀. -/
+theorem cross_eq_ref (a b : Item K) (ax1 ax2 : Int) (a1 a2 : Nat)
+    (h1 : normAx a.numer.length ax1 = some a1) (h2 : normAx b.numer.length ax2 = some a2)
+    (hd : ¬ (a.denom.length ≠ 0 ∧ b.denom.length ≠ 0))
+    (hn : a.numer.getD a1 0 = b.numer.getD a2 0) :
+    (a.numer.getD a1 0 = 3 →
+      ∃ r, crossItem a b ax1 ax2 = .ok r ∧
+        r.numer = insAt a1 3 (a.numer.eraseIdx a1) ++ b.numer.eraseIdx a2 ∧ r.denom = a.denom ++ b.denom ∧
+        ∀ c o1 o2 d1 d2, c < 3 → Valid (a.numer.eraseIdx a1) o1 → Valid (b.numer.eraseIdx a2) o2 →
+          Valid a.denom d1 → Valid b.denom d2 →
+          r.get (insAt a1 c o1 ++ o2 ++ d1 ++ d2) =
+            crossRef (fun k => a.get (insAt a1 k o1 ++ d1)) (fun k => b.get (insAt a2 k o2 ++ d2)) c) ∧
+    (a.numer.getD a1 0 = 2 →
+      ∃ r, crossItem a b ax1 ax2 = .ok r ∧
+        r.numer = a.numer.eraseIdx a1 ++ b.numer.eraseIdx a2 ∧ r.denom = a.denom ++ b.denom ∧
+        ∀ o1 o2 d1 d2, Valid (a.numer.eraseIdx a1) o1 → Valid (b.numer.eraseIdx a2) o2 →
+          Valid a.denom d1 → Valid b.denom d2 →
+          r.get (o1 ++ o2 ++ d1 ++ d2) =
+            a.get (insAt a1 0 o1 ++ d1) * b.get (insAt a2 1 o2 ++ d2)
+              - a.get (insAt a1 1 o1 ++ d1) * b.get (insAt a2 0 o2 ++ d2)) := by
+  have l1 := normAx_lt h1
+  have l2 := normAx_lt h2
+  have eA : (a.numer.eraseIdx a1).length = a.numer.length - 1 := by simp [List.length_eraseIdx, l1]
+  have eB : (b.numer.eraseIdx a2).length = b.numer.length - 1 := by simp [List.length_eraseIdx, l2]
+  have s1 := roll_shape1 a b a1 l1 (b.numer.eraseIdx a2) eB
+  have s2 := roll_shape2 a b a2 l2 (a.numer.eraseIdx a1) eA
+  rw [← hn] at s2
+  have hb := bshape_blocks (a.numer.eraseIdx a1) (b.numer.eraseIdx a2) a.denom b.denom (a.numer.getD a1 0)
+  constructor
+  · intro h3
+    have hA1 : a1 ≤ (a.numer.eraseIdx a1).length := by omega
+    have hnn : a.numer.length + b.numer.length - 1 =
+        (insAt a1 3 (a.numer.eraseIdx a1) ++ b.numer.eraseIdx a2).length := by
+      simp only [List.length_append, length_insAt hA1, eA, eB]; omega
+    have hsh : insAt a1 3 (a.numer.eraseIdx a1 ++ b.numer.eraseIdx a2 ++ a.denom ++ b.denom)
+        = insAt a1 3 (a.numer.eraseIdx a1) ++ b.numer.eraseIdx a2 ++ (a.denom ++ b.denom) := by
+      rw [List.append_assoc, List.append_assoc, insAt_append_left hA1]; simp [List.append_assoc]
+    unfold crossItem
+    rw [if_neg hd]
+    simp only [h1, h2]
+    rw [if_neg (by rw [← hn, h3]; simp)]
+    rw [if_pos h3]
+    rw [h3] at s1 s2 hb
+    simp only [cross3, s1, s2, hb, Option.map_some, rollFromEnd, List.dropLast_concat, List.getLastD_concat, hsh, hnn]
+    refine ⟨_, rfl, take_len_append _ _, drop_len_append _ _, ?_⟩
+    intro c o1 o2 d1 d2 hc v1 v2 v3 v4
+    have lo1 := valid_length v1
+    have e1 : (insAt a1 c o1 ++ o2 ++ d1 ++ d2).eraseIdx a1 = o1 ++ o2 ++ d1 ++ d2 := by
+      rw [List.append_assoc, List.append_assoc, List.eraseIdx_append_of_lt_length (by rw [length_insAt (by omega)]; omega),
+          eraseIdx_insAt (by omega)]; simp [List.append_assoc]
+    have e2 : (insAt a1 c o1 ++ o2 ++ d1 ++ d2).getD a1 0 = c := by
+      rw [List.append_assoc, List.append_assoc]
+      simp only [List.getD]
+      rw [List.getElem?_append_left (by rw [length_insAt (by omega)]; omega)]
+      exact getD_insAt (by omega)
+    dsimp only
+    rw [e1, e2]
+    try simp only [List.dropLast_concat, List.getLastD_concat]
+    have g1 : ∀ t, t < 3 → (rollEnd a1 (pad1 a (b.numer.length - 1) b.denom.length)).get
+        (bz (a.numer.eraseIdx a1 ++ List.replicate (b.numer.eraseIdx a2).length 1 ++ a.denom ++
+          List.replicate b.denom.length 1 ++ [3]) (o1 ++ o2 ++ d1 ++ d2 ++ [t])) = a.get (insAt a1 t o1 ++ d1) := by
+      intro t ht
+      rw [bz_blocks1 _ _ _ _ _ t _ _ _ _ v1 v2 v3 v4 ht, roll_get1 a b a1 t l1 _ b.denom eB rfl o1 d1 v1 v3]
+    have g2 : ∀ t, t < 3 → (rollEnd (a2 + (a.numer.length - 1)) (pad2 b (a.numer.length - 1) a.denom.length)).get
+        (bz (List.replicate (a.numer.eraseIdx a1).length 1 ++ b.numer.eraseIdx a2 ++ List.replicate a.denom.length 1 ++
+          b.denom ++ [3]) (o1 ++ o2 ++ d1 ++ d2 ++ [t])) = b.get (insAt a2 t o2 ++ d2) := by
+      intro t ht
+      rw [bz_blocks2 _ _ _ _ _ t _ _ _ _ v1 v2 v3 v4 ht, roll_get2 a b a2 t l2 _ a.denom eA rfl o2 d2 v2 v4]
+    match c, hc with
+    | 0, _ => simp only [crossRef, g1 1 (by omega), g1 2 (by omega), g2 1 (by omega), g2 2 (by omega)]
+    | 1, _ => simp only [crossRef, g1 0 (by omega), g1 2 (by omega), g2 0 (by omega), g2 2 (by omega)]
+    | 2, _ => simp only [crossRef, g1 0 (by omega), g1 1 (by omega), g2 0 (by omega), g2 1 (by omega)]
+  · intro h2'
+    have hnn : a.numer.length + b.numer.length - 2 = (a.numer.eraseIdx a1 ++ b.numer.eraseIdx a2).length := by
+      simp only [List.length_append, eA, eB]; omega
+    unfold crossItem
+    rw [if_neg hd]
+    simp only [h1, h2]
+    rw [if_neg (by rw [← hn, h2']; simp)]
+    rw [if_neg (by rw [h2']; simp)]
+    simp only [cross2, s1, s2, hb, Option.map_some, List.dropLast_concat, hnn]
+    refine ⟨_, rfl, ?_, ?_, ?_⟩
+    · rw [List.append_assoc (a.numer.eraseIdx a1 ++ b.numer.eraseIdx a2)]; exact take_len_append _ _
+    · rw [List.append_assoc (a.numer.eraseIdx a1 ++ b.numer.eraseIdx a2)]; exact drop_len_append _ _
+    · intro o1 o2 d1 d2 v1 v2 v3 v4
+      dsimp only
+      rw [bz_blocks1 _ _ _ _ _ 0 _ _ _ _ v1 v2 v3 v4 (by omega), bz_blocks2 _ _ _ _ _ 1 _ _ _ _ v1 v2 v3 v4 (by omega),
+          bz_blocks1 _ _ _ _ _ 1 _ _ _ _ v1 v2 v3 v4 (by omega), bz_blocks2 _ _ _ _ _ 0 _ _ _ _ v1 v2 v3 v4 (by omega)]
+      rw [roll_get1 a b a1 0 l1 _ b.denom eB rfl o1 d1 v1 v3, roll_get1 a b a1 1 l1 _ b.denom eB rfl o1 d1 v1 v3,
+          roll_get2 a b a2 0 l2 _ a.denom eA rfl o2 d2 v2 v4, roll_get2 a b a2 1 l2 _ a.denom eA rfl o2 d2 v2 v4]
+end crossfull
 
 /-! ## Matrix.inverse (matrix.py:321-366): the masking decision, LAPACK as a parameter -/
 section inverse
@@ -278,6 +386,13 @@ theorem axis_rotation_eq (s c : K) :
     Eq3 (xRot s c) (Rax 0 (SC.neg ⟨s, c⟩)) ∧ Eq3 (yRot s c) (Rax 1 ⟨s, c⟩) ∧ Eq3 (zRot s c) (Rax 2 ⟨s, c⟩) := by
   refine ⟨?_, ?_, ?_⟩ <;> refine forall_lt3_2 ⟨?_, ?_, ?_, ?_, ?_, ?_, ?_, ?_, ?_⟩ <;>
     simp [xRot, yRot, zRot, Rax, Mat.set, Mat.zeros, SC.neg]
+
+/-- the x-rotation is NOT the counter-clockwise rotation its docstring promises (witness: angle π/2,
+    s = 1, c = 0 over ℤ): recorded as known finding KF-C16-1 -/
+theorem x_rotation_sense_counterexample : ¬ Eq3 (xRot (1 : Int) 0) (Rax 0 ⟨1, 0⟩) := by
+  intro h
+  have := h 1 2 (by omega) (by omega)
+  simp [xRot, Rax, Mat.set, Mat.zeros] at this
 
 theorem sc_neg_unit (s c : K) (h : s * s + c * c = 1) :
     (SC.neg ⟨s, c⟩ : SC K).s * (SC.neg ⟨s, c⟩ : SC K).s + (SC.neg ⟨s, c⟩ : SC K).c * (SC.neg ⟨s, c⟩ : SC K).c = 1 := by
@@ -608,6 +723,436 @@ example : ∃ nrm : ℚ, nrm * nrm = vdot 2 (fun i => if i = 0 then (3 : ℚ) el
   ⟨5, by simp [vdot, sumRange]; norm_num, by norm_num⟩
 
 end vectors
+
+/-! ## Quaternion.from_euler (quaternion.py:734-805) -/
+section qeuler
+variable {K : Type} [Field K] [DecidableEq K]
+
+theorem Eq3.mul {a a' b b' : Mat K} (ha : Eq3 a a') (hb : Eq3 b b') : Eq3 (Mat.mul 3 a b) (Mat.mul 3 a' b') := by
+  intro r c hr hc
+  simp only [Mat.mul, sumRange]
+  rw [ha r 0 hr (by omega), ha r 1 hr (by omega), ha r 2 hr (by omega),
+      hb 0 c (by omega) hc, hb 1 c (by omega) hc, hb 2 c (by omega) hc]
+
+theorem Eq3.trans {a b c : Mat K} (h1 : Eq3 a b) (h2 : Eq3 b c) : Eq3 a c :=
+  fun r c' hr hc => (h1 r c' hr hc).trans (h2 r c' hr hc)
+theorem Eq3.symm {a b : Mat K} (h : Eq3 a b) : Eq3 b a := fun r c hr hc => (h r c hr hc).symm
+
+/-- sine and cosine of the full angle from those of the half angle -/
+def SC.dbl (h : SC K) : SC K := ⟨2 * h.s * h.c, h.c * h.c - h.s * h.s⟩
+
+theorem qAx_norm (x : Nat) (h : SC K) (hh : h.s * h.s + h.c * h.c = 1) : qNormSq (qAx x h) = 1 := by
+  rw [qNormSq_eq]
+  unfold qAx
+  split <;> simp <;> linear_combination hh
+
+theorem toMatRef_qAx (x : Nat) (hx : x < 3) (h : SC K) (hh : h.s * h.s + h.c * h.c = 1) :
+    Eq3 (toMatRef (qAx x h)) (Rax x h.dbl) := by
+  have hN := qAx_norm x h hh
+  unfold toMatRef
+  rw [hN]
+  revert x
+  refine forall_lt3 ?_ ?_ ?_ <;> intro _ <;> refine forall_lt3_2 ⟨?_, ?_, ?_, ?_, ?_, ?_, ?_, ?_, ?_⟩ <;>
+    simp [qAx, Rax, SC.dbl] <;> first | ring1 | linear_combination -hh
+
+theorem toMatRef_scale (c : K) (p : Q4 K) (hc : c ≠ 0) (hp : qNormSq p ≠ 0) :
+    Eq3 (toMatRef (qScale c p)) (toMatRef p) := by
+  have ea := qNormSq_eq p
+  unfold toMatRef
+  rw [qNormSq_eq (qScale c p)]
+  simp only [qScale]
+  generalize qNormSq p = n at hp ea
+  have hn : p.s * c * (p.s * c) + p.x * c * (p.x * c) + p.y * c * (p.y * c) + p.z * c * (p.z * c) = c * c * n := by
+    rw [ea]; ring
+  rw [hn]
+  refine forall_lt3_2 ⟨?_, ?_, ?_, ?_, ?_, ?_, ?_, ?_, ?_⟩ <;> simp only [] <;> field_simp
+
+/-- **Quaternion.from_euler = product of the three axis quaternions**, for all 24 conventions, up to the
+    sign normalisation of the scalar part (the four assignments overwrite the whole `np.empty` buffer) -/
+theorem qeuler_eq_axis_product (sign : K → K) (hi hj hk : SC K) (q0 : Q4 K) :
+    ∀ row ∈ (convTable : List (String × Conv × Bool × Nat × Nat × Nat)),
+      qFromEuler sign row.2.1 hi hj hk q0 =
+        qScale (sign (qEulerSpec row.2.2.1 row.2.2.2.1 row.2.2.2.2.1 row.2.2.2.2.2 hi hj hk).s)
+          (qEulerSpec row.2.2.1 row.2.2.2.1 row.2.2.2.2.1 row.2.2.2.2.2 hi hj hk) := by
+  intro row h
+  have key : qFromEulerRaw row.2.1 hi hj hk q0 =
+      qEulerSpec row.2.2.1 row.2.2.2.1 row.2.2.2.2.1 row.2.2.2.2.2 hi hj hk := by
+    simp only [convTable, List.mem_cons, List.mem_nil_iff, or_false] at h
+    rcases h with rfl | rfl | rfl | rfl | rfl | rfl | rfl | rfl | rfl | rfl | rfl | rfl | rfl | rfl | rfl | rfl |
+      rfl | rfl | rfl | rfl | rfl | rfl | rfl | rfl
+    · exact qeuler_row_sxyz hi hj hk q0
+    · exact qeuler_row_sxyx hi hj hk q0
+    · exact qeuler_row_sxzy hi hj hk q0
+    · exact qeuler_row_sxzx hi hj hk q0
+    · exact qeuler_row_syzx hi hj hk q0
+    · exact qeuler_row_syzy hi hj hk q0
+    · exact qeuler_row_syxz hi hj hk q0
+    · exact qeuler_row_syxy hi hj hk q0
+    · exact qeuler_row_szxy hi hj hk q0
+    · exact qeuler_row_szxz hi hj hk q0
+    · exact qeuler_row_szyx hi hj hk q0
+    · exact qeuler_row_szyz hi hj hk q0
+    · exact qeuler_row_rzyx hi hj hk q0
+    · exact qeuler_row_rxyx hi hj hk q0
+    · exact qeuler_row_ryzx hi hj hk q0
+    · exact qeuler_row_rxzx hi hj hk q0
+    · exact qeuler_row_rxzy hi hj hk q0
+    · exact qeuler_row_ryzy hi hj hk q0
+    · exact qeuler_row_rzxy hi hj hk q0
+    · exact qeuler_row_ryxy hi hj hk q0
+    · exact qeuler_row_ryxz hi hj hk q0
+    · exact qeuler_row_rzxz hi hj hk q0
+    · exact qeuler_row_rxyz hi hj hk q0
+    · exact qeuler_row_rzyz hi hj hk q0
+  simp only [qFromEuler, key]
+
+theorem qScale_norm (c : K) (p : Q4 K) : qNormSq (qScale c p) = c * c * qNormSq p := by
+  simp only [qNormSq_eq, qScale]; ring
+
+theorem qEulerSpec_norm (st : Bool) (x1 x2 x3 : Nat) (hi hj hk : SC K)
+    (ei : hi.s * hi.s + hi.c * hi.c = 1) (ej : hj.s * hj.s + hj.c * hj.c = 1) (ek : hk.s * hk.s + hk.c * hk.c = 1) :
+    qNormSq (qEulerSpec st x1 x2 x3 hi hj hk) = 1 := by
+  cases st <;> simp only [qEulerSpec, quat_norm_mul, qAx_norm _ _ ei, qAx_norm _ _ ej, qAx_norm _ _ ek, mul_one]
+
+theorem toMatRef_qEulerSpec (st : Bool) (x1 x2 x3 : Nat) (h1 : x1 < 3) (h2 : x2 < 3) (h3 : x3 < 3) (hi hj hk : SC K)
+    (ei : hi.s * hi.s + hi.c * hi.c = 1) (ej : hj.s * hj.s + hj.c * hj.c = 1) (ek : hk.s * hk.s + hk.c * hk.c = 1) :
+    Eq3 (toMatRef (qEulerSpec st x1 x2 x3 hi hj hk)) (eulerSpec st x1 x2 x3 hi.dbl hj.dbl hk.dbl) := by
+  have ni := qAx_norm x1 hi ei; have nj := qAx_norm x2 hj ej; have nk := qAx_norm x3 hk ek
+  have one : (1 : K) ≠ 0 := one_ne_zero
+  cases st <;> simp only [qEulerSpec, eulerSpec]
+  · refine (toMatRef_mul _ _ (by rw [ni]; exact one) (by rw [quat_norm_mul, nj, nk, mul_one]; exact one)).trans ?_
+    refine Eq3.mul (toMatRef_qAx x1 h1 hi ei) ?_
+    exact (toMatRef_mul _ _ (by rw [nj]; exact one) (by rw [nk]; exact one)).trans
+      (Eq3.mul (toMatRef_qAx x2 h2 hj ej) (toMatRef_qAx x3 h3 hk ek))
+  · refine (toMatRef_mul _ _ (by rw [nk]; exact one) (by rw [quat_norm_mul, nj, ni, mul_one]; exact one)).trans ?_
+    refine Eq3.mul (toMatRef_qAx x3 h3 hk ek) ?_
+    exact (toMatRef_mul _ _ (by rw [nj]; exact one) (by rw [ni]; exact one)).trans
+      (Eq3.mul (toMatRef_qAx x2 h2 hj ej) (toMatRef_qAx x1 h1 hi ei))
+
+/-- **to_matrix3 (Quaternion.from_euler …) = Matrix3.from_euler …** for all 24 conventions: the half-angle
+    sines/cosines go to the quaternion constructor, the double-angle pairs (2sc, c²−s²) to the matrix
+    constructor; `sign` is any function with values ±1, √2·√2 = 2, pnorm² = ‖q‖². Nothing is masked. -/
+theorem qeuler_to_matrix3 (sign : K → K) (hsign : ∀ x, sign x * sign x = 1) (sqrt2 pnorm : K) (h2 : sqrt2 * sqrt2 = 2)
+    (hi hj hk : SC K)
+    (ei : hi.s * hi.s + hi.c * hi.c = 1) (ej : hj.s * hj.s + hj.c * hj.c = 1) (ek : hk.s * hk.s + hk.c * hk.c = 1)
+    (q0 : Q4 K) (m : Bool) (m0 m1 : Mat K) :
+    ∀ cv ∈ allConvs, pnorm * pnorm = qNormSq (qFromEuler sign cv hi hj hk q0) →
+      Eq3 (qToMatrix3 sqrt2 pnorm (qFromEuler sign cv hi hj hk q0) m m0).1 (fromEuler cv hi.dbl hj.dbl hk.dbl m1) ∧
+      (qToMatrix3 sqrt2 pnorm (qFromEuler sign cv hi hj hk q0) m m0).2 = m := by
+  intro cv hcv hn
+  rw [allConvs, ← convTable_is_axes2tuple, List.map_map, List.mem_map] at hcv
+  obtain ⟨row, hrow, rfl⟩ := hcv
+  obtain ⟨l1, l2, l3⟩ := convTable_axes_lt3 row hrow
+  show Eq3 (qToMatrix3 sqrt2 pnorm (qFromEuler sign row.2.1 hi hj hk q0) m m0).1 (fromEuler row.2.1 hi.dbl hj.dbl hk.dbl m1) ∧ _
+  change pnorm * pnorm = qNormSq (qFromEuler sign row.2.1 hi hj hk q0) at hn
+  have hq := qeuler_eq_axis_product sign hi hj hk q0 row hrow
+  have hN := qEulerSpec_norm row.2.2.1 row.2.2.2.1 row.2.2.2.2.1 row.2.2.2.2.2 hi hj hk ei ej ek
+  have hs := hsign (qEulerSpec row.2.2.1 row.2.2.2.1 row.2.2.2.2.1 row.2.2.2.2.2 hi hj hk).s
+  have hs0 : sign (qEulerSpec row.2.2.1 row.2.2.2.1 row.2.2.2.2.1 row.2.2.2.2.2 hi hj hk).s ≠ 0 := by
+    intro e; rw [e, mul_zero] at hs; exact zero_ne_one hs
+  have hpn : pnorm ≠ 0 := by
+    intro e; rw [e, mul_zero, hq, qScale_norm, hs, hN, mul_one] at hn; exact zero_ne_one hn
+  obtain ⟨A, B⟩ := (to_matrix3_eq_ref sqrt2 pnorm _ m m0 h2 hn).1 hpn
+  refine ⟨?_, B⟩
+  refine A.trans ?_
+  rw [hq]
+  refine (toMatRef_scale _ _ hs0 (by rw [hN]; exact one_ne_zero)).trans ?_
+  refine (toMatRef_qEulerSpec _ _ _ _ l1 l2 l3 hi hj hk ei ej ek).trans ?_
+  exact (euler_eq_axis_product hi.dbl hj.dbl hk.dbl m1 row hrow).symm
+
+end qeuler
+
+/-! ## Quaternion.from_matrix3 (quaternion.py:400-482) -/
+section frommatrix
+variable {K : Type} [Field K] [DecidableEq K]
+
+/-- a quaternion `u` with ‖u‖² = 4X whose quadratic forms reproduce 2X·M has matrix M -/
+theorem toMatRef_of_identities (u : Q4 K) (m : Mat K) (X : K) (hX : X ≠ 0) (h2 : (2 : K) ≠ 0)
+    (hN : qNormSq u = 4 * X)
+    (e00 : u.y * u.y + u.z * u.z = 2 * X * (1 - m 0 0)) (e11 : u.x * u.x + u.z * u.z = 2 * X * (1 - m 1 1))
+    (e22 : u.x * u.x + u.y * u.y = 2 * X * (1 - m 2 2))
+    (e01 : u.x * u.y - u.s * u.z = 2 * X * m 0 1) (e02 : u.x * u.z + u.s * u.y = 2 * X * m 0 2)
+    (e10 : u.x * u.y + u.s * u.z = 2 * X * m 1 0) (e12 : u.y * u.z - u.s * u.x = 2 * X * m 1 2)
+    (e20 : u.x * u.z - u.s * u.y = 2 * X * m 2 0) (e21 : u.y * u.z + u.s * u.x = 2 * X * m 2 1) :
+    Eq3 (toMatRef u) m := by
+  have h4 : (4 : K) ≠ 0 := by
+    have : (4 : K) = 2 * 2 := by norm_num
+    rw [this]; exact mul_ne_zero h2 h2
+  unfold toMatRef
+  rw [hN]
+  refine forall_lt3_2 ⟨?_, ?_, ?_, ?_, ?_, ?_, ?_, ?_, ?_⟩ <;> simp only []
+  · rw [e00]; field_simp; ring
+  · rw [e01]; field_simp; ring
+  · rw [e02]; field_simp; ring
+  · rw [e10]; field_simp; ring
+  · rw [e11]; field_simp; ring
+  · rw [e12]; field_simp; ring
+  · rw [e20]; field_simp; ring
+  · rw [e21]; field_simp; ring
+  · rw [e22]; field_simp; ring
+
+/-- branch `argmax = 0` of `from_matrix3`: the un-scaled quaternion `u` reproduces the matrix -/
+theorem fromMatrix3_branch0 (m : Mat K) (h : SO3 m) (q0 : Q4 K) (h2 : (2 : K) ≠ 0)
+    (hX : 1 + (1 + 1) * m 0 0 - (m 0 0 + m 1 1 + m 2 2) ≠ 0) :
+    Eq3 (toMatRef ((((q0.setAt 0 (m 2 1 - m 1 2)).setAt (0 + 1) (1 + (1 + 1) * m 0 0 - (m 0 0 + m 1 1 + m 2 2))).setAt
+      (1 + 1) (m 0 1 + m 1 0)).setAt (2 + 1) (m 0 2 + m 2 0))) m := by
+  refine toMatRef_of_identities _ m _ hX h2 ?_ ?_ ?_ ?_ ?_ ?_ ?_ ?_ ?_ ?_ <;> simp only [Q4.setAt, qNormSq_eq]
+  · linear_combination (1) * h.r00 + (1) * h.r11 + (1) * h.r22 + (2) * h.f00 + (-2) * h.f11 + (-2) * h.f22
+  · linear_combination (1) * h.r00 + (1) * h.c00 + (-2) * h.f11 + (-2) * h.f22
+  · linear_combination (1) * h.r00 + (1) * h.r22 + (-1) * h.c11 + (-2) * h.f11
+  · linear_combination (-1) * h.r22 + (1) * h.c00 + (1) * h.c11 + (-2) * h.f22
+  · linear_combination (1) * h.r01 + (-1) * h.c01 + (1) * h.f01 + (-1) * h.f10
+  · linear_combination (1) * h.r02 + (-1) * h.c02 + (1) * h.f02 + (-1) * h.f20
+  · linear_combination (-1) * h.r01 + (1) * h.c01 + (-1) * h.f01 + (1) * h.f10
+  · linear_combination (1) * h.r12 + (1) * h.c12 + (1) * h.f12 + (1) * h.f21
+  · linear_combination (-1) * h.r02 + (1) * h.c02 + (-1) * h.f02 + (1) * h.f20
+  · linear_combination (1) * h.r12 + (1) * h.c12 + (1) * h.f12 + (1) * h.f21
+
+/-- branch `argmax = 1` of `from_matrix3`: the un-scaled quaternion `u` reproduces the matrix -/
+theorem fromMatrix3_branch1 (m : Mat K) (h : SO3 m) (q0 : Q4 K) (h2 : (2 : K) ≠ 0)
+    (hX : 1 + (1 + 1) * m 1 1 - (m 0 0 + m 1 1 + m 2 2) ≠ 0) :
+    Eq3 (toMatRef ((((q0.setAt 0 (m 0 2 - m 2 0)).setAt (1 + 1) (1 + (1 + 1) * m 1 1 - (m 0 0 + m 1 1 + m 2 2))).setAt
+      (2 + 1) (m 1 2 + m 2 1)).setAt (0 + 1) (m 1 0 + m 0 1))) m := by
+  refine toMatRef_of_identities _ m _ hX h2 ?_ ?_ ?_ ?_ ?_ ?_ ?_ ?_ ?_ ?_ <;> simp only [Q4.setAt, qNormSq_eq]
+  · linear_combination (1) * h.r00 + (1) * h.r11 + (1) * h.r22 + (-2) * h.f00 + (2) * h.f11 + (-2) * h.f22
+  · linear_combination (1) * h.r11 + (1) * h.r22 + (-1) * h.c00 + (-2) * h.f00
+  · linear_combination (1) * h.r11 + (1) * h.c11 + (-2) * h.f00 + (-2) * h.f22
+  · linear_combination (-1) * h.r22 + (1) * h.c00 + (1) * h.c11 + (-2) * h.f22
+  · linear_combination (-1) * h.r01 + (1) * h.c01 + (1) * h.f01 + (-1) * h.f10
+  · linear_combination (1) * h.r02 + (1) * h.c02 + (1) * h.f02 + (1) * h.f20
+  · linear_combination (1) * h.r01 + (-1) * h.c01 + (-1) * h.f01 + (1) * h.f10
+  · linear_combination (1) * h.r12 + (-1) * h.c12 + (1) * h.f12 + (-1) * h.f21
+  · linear_combination (1) * h.r02 + (1) * h.c02 + (1) * h.f02 + (1) * h.f20
+  · linear_combination (-1) * h.r12 + (1) * h.c12 + (-1) * h.f12 + (1) * h.f21
+
+/-- branch `argmax = 2` of `from_matrix3`: the un-scaled quaternion `u` reproduces the matrix -/
+theorem fromMatrix3_branch2 (m : Mat K) (h : SO3 m) (q0 : Q4 K) (h2 : (2 : K) ≠ 0)
+    (hX : 1 + (1 + 1) * m 2 2 - (m 0 0 + m 1 1 + m 2 2) ≠ 0) :
+    Eq3 (toMatRef ((((q0.setAt 0 (m 1 0 - m 0 1)).setAt (2 + 1) (1 + (1 + 1) * m 2 2 - (m 0 0 + m 1 1 + m 2 2))).setAt
+      (0 + 1) (m 2 0 + m 0 2)).setAt (1 + 1) (m 2 1 + m 1 2))) m := by
+  refine toMatRef_of_identities _ m _ hX h2 ?_ ?_ ?_ ?_ ?_ ?_ ?_ ?_ ?_ ?_ <;> simp only [Q4.setAt, qNormSq_eq]
+  · linear_combination (1) * h.r00 + (1) * h.r11 + (1) * h.r22 + (-2) * h.f00 + (-2) * h.f11 + (2) * h.f22
+  · linear_combination (1) * h.r11 + (1) * h.r22 + (-1) * h.c00 + (-2) * h.f00
+  · linear_combination (1) * h.r00 + (1) * h.r22 + (-1) * h.c11 + (-2) * h.f11
+  · linear_combination (1) * h.r00 + (1) * h.r11 + (2) * h.r22 + (-1) * h.c00 + (-1) * h.c11 + (-2) * h.f00 + (-2) * h.f11
+  · linear_combination (1) * h.r01 + (1) * h.c01 + (1) * h.f01 + (1) * h.f10
+  · linear_combination (-1) * h.r02 + (1) * h.c02 + (1) * h.f02 + (-1) * h.f20
+  · linear_combination (1) * h.r01 + (1) * h.c01 + (1) * h.f01 + (1) * h.f10
+  · linear_combination (-1) * h.r12 + (1) * h.c12 + (1) * h.f12 + (-1) * h.f21
+  · linear_combination (1) * h.r02 + (-1) * h.c02 + (-1) * h.f02 + (1) * h.f20
+  · linear_combination (1) * h.r12 + (-1) * h.c12 + (-1) * h.f12 + (1) * h.f21
+
+
+theorem argmax3_lt (le : K → K → Bool) (a b c : K) : argmax3 le a b c < 3 := by
+  unfold argmax3; split <;> [omega; (split <;> omega)]
+
+/-- **Matrix3 → Quaternion → Matrix3**, non-degenerate branches: for every rotation matrix (M Mᵀ = 1,
+    det M = 1), whichever diagonal entry `argmax` selects (the comparison `le` is arbitrary here), if the
+    square root argument is non-zero and `r·r = r_sq`, the quaternion returned by `from_matrix3` has the
+    rotation matrix M (textbook matrix of the normalised quaternion; `to_matrix3_eq_ref` transfers this to
+    the code-shaped `qToMatrix3`). The `np.empty` buffer is fully overwritten. -/
+theorem from_matrix3_roundtrip (le : K → K → Bool) (r : K) (m : Mat K) (q0 : Q4 K) (h : SO3 m) (h2 : (2 : K) ≠ 0)
+    (hr : r * r = fromMatrix3Rsq le m) (hz : r ≠ 0) :
+    Eq3 (toMatRef (fromMatrix3 le r m q0)) m ∧ qNormSq (fromMatrix3 le r m q0) ≠ 0 := by
+  have hX : fromMatrix3Rsq le m ≠ 0 := by rw [← hr]; exact mul_ne_zero hz hz
+  have hs : (1 / (1 + 1) : K) / r ≠ 0 := by
+    have : (1 + 1 : K) = 2 := one_add_one_eq_two
+    rw [this]; exact div_ne_zero (div_ne_zero one_ne_zero h2) hz
+  have hi := argmax3_lt le (m 0 0) (m 1 1) (m 2 2)
+  unfold fromMatrix3Rsq at hX
+  unfold fromMatrix3
+  simp only [hz, decide_false, Bool.false_eq_true, ↓reduceIte]
+  generalize argmax3 le (m 0 0) (m 1 1) (m 2 2) = i at hi hX
+  have key : ∀ u : Q4 K, Eq3 (toMatRef u) m → qNormSq u ≠ 0 →
+      Eq3 (toMatRef (qScale ((1 / (1 + 1) : K) / r) u)) m ∧ qNormSq (qScale ((1 / (1 + 1) : K) / r) u) ≠ 0 := by
+    intro u hu hn
+    exact ⟨(toMatRef_scale _ u hs hn).trans hu, by rw [qScale_norm]; exact mul_ne_zero (mul_ne_zero hs hs) hn⟩
+  have h4 : (4 : K) ≠ 0 := by
+    have : (4 : K) = 2 * 2 := by norm_num
+    rw [this]; exact mul_ne_zero h2 h2
+  match i, hi with
+  | 0, _ =>
+    refine key _ (fromMatrix3_branch0 m h q0 h2 hX) ?_
+    have : qNormSq ((((q0.setAt 0 (m 2 1 - m 1 2)).setAt (0 + 1) (1 + (1 + 1) * m 0 0 - (m 0 0 + m 1 1 + m 2 2))).setAt
+      ((0 + 1) % 3 + 1) (m 0 1 + m 1 0)).setAt ((0 + 2) % 3 + 1) (m 0 2 + m 2 0))
+        = 4 * (1 + (1 + 1) * m 0 0 - (m 0 0 + m 1 1 + m 2 2)) := by
+      simp only [Q4.setAt, qNormSq_eq]
+      linear_combination (1) * h.r00 + (1) * h.r11 + (1) * h.r22 + (2) * h.f00 + (-2) * h.f11 + (-2) * h.f22
+    rw [this]; exact mul_ne_zero h4 hX
+  | 1, _ =>
+    refine key _ (fromMatrix3_branch1 m h q0 h2 hX) ?_
+    have : qNormSq ((((q0.setAt 0 (m 0 2 - m 2 0)).setAt (1 + 1) (1 + (1 + 1) * m 1 1 - (m 0 0 + m 1 1 + m 2 2))).setAt
+      ((1 + 1) % 3 + 1) (m 1 2 + m 2 1)).setAt ((1 + 2) % 3 + 1) (m 1 0 + m 0 1))
+        = 4 * (1 + (1 + 1) * m 1 1 - (m 0 0 + m 1 1 + m 2 2)) := by
+      simp only [Q4.setAt, qNormSq_eq]
+      linear_combination (1) * h.r00 + (1) * h.r11 + (1) * h.r22 + (-2) * h.f00 + (2) * h.f11 + (-2) * h.f22
+    rw [this]; exact mul_ne_zero h4 hX
+  | 2, _ =>
+    refine key _ (fromMatrix3_branch2 m h q0 h2 hX) ?_
+    have : qNormSq ((((q0.setAt 0 (m 1 0 - m 0 1)).setAt (2 + 1) (1 + (1 + 1) * m 2 2 - (m 0 0 + m 1 1 + m 2 2))).setAt
+      ((2 + 1) % 3 + 1) (m 2 0 + m 0 2)).setAt ((2 + 2) % 3 + 1) (m 2 1 + m 1 2))
+        = 4 * (1 + (1 + 1) * m 2 2 - (m 0 0 + m 1 1 + m 2 2)) := by
+      simp only [Q4.setAt, qNormSq_eq]
+      linear_combination (1) * h.r00 + (1) * h.r11 + (1) * h.r22 + (-2) * h.f00 + (-2) * h.f11 + (2) * h.f22
+    rw [this]; exact mul_ne_zero h4 hX
+
+/-- the degenerate branch: r = 0 returns the identity quaternion, whose matrix is the identity -/
+theorem from_matrix3_zero (le : K → K → Bool) (m : Mat K) (q0 : Q4 K) :
+    fromMatrix3 le 0 m q0 = ⟨1, 0, 0, 0⟩ ∧ Eq3 (toMatRef (⟨1, 0, 0, 0⟩ : Q4 K)) Mat.ident := by
+  refine ⟨by simp [fromMatrix3], ?_⟩
+  refine forall_lt3_2 ⟨?_, ?_, ?_, ?_, ?_, ?_, ?_, ?_, ?_⟩ <;> simp [toMatRef, Mat.ident, qNormSq_eq]
+
+end frommatrix
+
+section coverage
+variable {K : Type} [Field K] [LinearOrder K] [IsStrictOrderedRing K]
+
+/-- **the branches cover all rotations**: over an ordered field, with `argmax` taken for the real `≤`,
+    the square-root argument `1 + 2·max(diag) − trace` of a rotation matrix is never negative and vanishes
+    only for the identity matrix — the one case the degenerate branch answers with the identity quaternion. -/
+theorem from_matrix3_cover (m : Mat K) (h : SO3 m) :
+    0 ≤ fromMatrix3Rsq (fun a b => decide (a ≤ b)) m ∧
+    (fromMatrix3Rsq (fun a b => decide (a ≤ b)) m = 0 → Eq3 m Mat.ident) := by
+  have b0 : m 0 0 ≤ 1 := by nlinarith [h.r00, sq_nonneg (m 0 1), sq_nonneg (m 0 2), sq_nonneg (m 0 0 - 1)]
+  have b1 : m 1 1 ≤ 1 := by nlinarith [h.r11, sq_nonneg (m 1 0), sq_nonneg (m 1 2), sq_nonneg (m 1 1 - 1)]
+  have b2 : m 2 2 ≤ 1 := by nlinarith [h.r22, sq_nonneg (m 2 0), sq_nonneg (m 2 1), sq_nonneg (m 2 2 - 1)]
+  have ident : m 0 0 = 1 → m 1 1 = 1 → m 2 2 = 1 → Eq3 m Mat.ident := by
+    intro e0 e1 e2
+    have r0 := h.r00; have r1 := h.r11; have r2 := h.r22
+    rw [e0] at r0; rw [e1] at r1; rw [e2] at r2
+    have z01 : m 0 1 = 0 := by nlinarith [sq_nonneg (m 0 1), sq_nonneg (m 0 2)]
+    have z02 : m 0 2 = 0 := by nlinarith [sq_nonneg (m 0 1), sq_nonneg (m 0 2)]
+    have z10 : m 1 0 = 0 := by nlinarith [sq_nonneg (m 1 0), sq_nonneg (m 1 2)]
+    have z12 : m 1 2 = 0 := by nlinarith [sq_nonneg (m 1 0), sq_nonneg (m 1 2)]
+    have z20 : m 2 0 = 0 := by nlinarith [sq_nonneg (m 2 0), sq_nonneg (m 2 1)]
+    have z21 : m 2 1 = 0 := by nlinarith [sq_nonneg (m 2 0), sq_nonneg (m 2 1)]
+    refine forall_lt3_2 ⟨?_, ?_, ?_, ?_, ?_, ?_, ?_, ?_, ?_⟩ <;> simp [Mat.ident, *]
+  unfold fromMatrix3Rsq argmax3
+  have two : (1 + 1 : K) = 2 := one_add_one_eq_two
+  simp only [Bool.and_eq_true, decide_eq_true_eq, two]
+  split
+  · rename_i hc
+    refine ⟨by linarith [hc.1, hc.2], fun e => ?_⟩
+    exact ident (by linarith [hc.1, hc.2]) (by linarith [hc.1, hc.2]) (by linarith [hc.1, hc.2])
+  · rename_i hc
+    split
+    · rename_i hd
+      have : m 0 0 ≤ m 1 1 := by
+        by_contra hlt
+        exact hc ⟨by linarith [not_le.mp hlt], by linarith [not_le.mp hlt]⟩
+      refine ⟨by linarith, fun e => ?_⟩
+      exact ident (by linarith) (by linarith) (by linarith)
+    · rename_i hd
+      have hd' := not_le.mp hd
+      have : m 0 0 ≤ m 2 2 := by
+        by_contra hlt
+        have := not_le.mp hlt
+        rcases le_or_gt (m 1 1) (m 0 0) with h10 | h10
+        · exact hc ⟨h10, by linarith⟩
+        · linarith
+      refine ⟨by linarith, fun e => ?_⟩
+      exact ident (by linarith) (by linarith) (by linarith)
+
+end coverage
+
+section m2q2m
+variable {K : Type} [Field K] [DecidableEq K]
+
+/-- **Matrix3 → Quaternion → Matrix3 on the code-shaped functions**: `to_matrix3(from_matrix3(M)) = M` on all
+    nine entries and nothing is masked, for every rotation matrix in a non-degenerate branch -/
+theorem m2q2m_roundtrip (le : K → K → Bool) (r sqrt2 pnorm : K) (m : Mat K) (q0 : Q4 K) (msk : Bool) (m0 : Mat K)
+    (h : SO3 m) (h2 : (2 : K) ≠ 0) (hr : r * r = fromMatrix3Rsq le m) (hz : r ≠ 0)
+    (hs : sqrt2 * sqrt2 = 2) (hn : pnorm * pnorm = qNormSq (fromMatrix3 le r m q0)) :
+    Eq3 (qToMatrix3 sqrt2 pnorm (fromMatrix3 le r m q0) msk m0).1 m ∧
+    (qToMatrix3 sqrt2 pnorm (fromMatrix3 le r m q0) msk m0).2 = msk := by
+  obtain ⟨A, N⟩ := from_matrix3_roundtrip le r m q0 h h2 hr hz
+  have hp : pnorm ≠ 0 := by intro e; rw [e, mul_zero] at hn; exact N hn.symm
+  obtain ⟨B, C⟩ := (to_matrix3_eq_ref sqrt2 pnorm _ msk m0 hs hn).1 hp
+  exact ⟨B.trans A, C⟩
+
+end m2q2m
+
+/-! ## to_euler (matrix3.py:522-589): from_euler ∘ to_euler = id -/
+section toeuler
+variable {K : Type} [Field K] [DecidableEq K]
+
+/-- the two matrix entries under the square root of the pivot (`sy` resp. `cy`) -/
+def eulerPivotEntries (cv : Conv) (m : Mat K) : K × K :=
+  let (i, j, k) := eulerIJK cv
+  if cv.repetition ≠ 0 then (m i j, m i k) else (m i i, m j i)
+
+/-- **from_euler (to_euler M) = M away from gimbal lock**, all 24 conventions: for every rotation matrix
+    (`SO3 m`), with the arctan2 contract built into `atan2SC` (sine and cosine of the returned angle are the
+    normalised pair; reduction mod 2π does not change them) and `sqrt` any function with
+    `sqrt(x²+y²)² = x²+y²`, `sqrt 1 = 1`, whenever the regular branch is taken and the pivot is non-zero. -/
+theorem euler_roundtrip (sqrt : K → K) (small : K → Bool) (m : Mat K) (h : SO3 m) (m0 : Mat K)
+    (hsq : ∀ x y : K, sqrt (x * x + y * y) * sqrt (x * x + y * y) = x * x + y * y) (h1 : sqrt 1 = 1) :
+    ∀ cv ∈ allConvs, small (eulerPivot sqrt cv m) = false → eulerPivot sqrt cv m ≠ 0 →
+      Eq3 (fromEuler cv (toEuler sqrt small cv m).1 (toEuler sqrt small cv m).2.1 (toEuler sqrt small cv m).2.2 m0) m := by
+  intro cv hcv hs hz
+  simp only [allConvs, axes2tuple, List.map_cons, List.map_nil, List.mem_cons, List.mem_nil_iff, or_false] at hcv
+  rcases hcv with rfl | rfl | rfl | rfl | rfl | rfl | rfl | rfl | rfl | rfl | rfl | rfl | rfl | rfl | rfl | rfl | rfl | rfl | rfl | rfl | rfl | rfl | rfl | rfl
+  · exact to_euler_row_sxyz sqrt small m h m0 hsq h1 hs hz
+  · exact to_euler_row_sxyx sqrt small m h m0 hsq h1 hs hz
+  · exact to_euler_row_sxzy sqrt small m h m0 hsq h1 hs hz
+  · exact to_euler_row_sxzx sqrt small m h m0 hsq h1 hs hz
+  · exact to_euler_row_syzx sqrt small m h m0 hsq h1 hs hz
+  · exact to_euler_row_syzy sqrt small m h m0 hsq h1 hs hz
+  · exact to_euler_row_syxz sqrt small m h m0 hsq h1 hs hz
+  · exact to_euler_row_syxy sqrt small m h m0 hsq h1 hs hz
+  · exact to_euler_row_szxy sqrt small m h m0 hsq h1 hs hz
+  · exact to_euler_row_szxz sqrt small m h m0 hsq h1 hs hz
+  · exact to_euler_row_szyx sqrt small m h m0 hsq h1 hs hz
+  · exact to_euler_row_szyz sqrt small m h m0 hsq h1 hs hz
+  · exact to_euler_row_rzyx sqrt small m h m0 hsq h1 hs hz
+  · exact to_euler_row_rxyx sqrt small m h m0 hsq h1 hs hz
+  · exact to_euler_row_ryzx sqrt small m h m0 hsq h1 hs hz
+  · exact to_euler_row_rxzx sqrt small m h m0 hsq h1 hs hz
+  · exact to_euler_row_rxzy sqrt small m h m0 hsq h1 hs hz
+  · exact to_euler_row_ryzy sqrt small m h m0 hsq h1 hs hz
+  · exact to_euler_row_rzxy sqrt small m h m0 hsq h1 hs hz
+  · exact to_euler_row_ryxy sqrt small m h m0 hsq h1 hs hz
+  · exact to_euler_row_ryxz sqrt small m h m0 hsq h1 hs hz
+  · exact to_euler_row_rzxz sqrt small m h m0 hsq h1 hs hz
+  · exact to_euler_row_rxyz sqrt small m h m0 hsq h1 hs hz
+  · exact to_euler_row_rzyz sqrt small m h m0 hsq h1 hs hz
+
+/-- **the gimbal-lock branch**: when `to_euler` takes the branch `sy <= EPSILON` (resp. `cy <= EPSILON`) and
+    the lock is exact (the two entries under the square root vanish), `from_euler (to_euler M) = M` as well -/
+theorem euler_roundtrip_gimbal (sqrt : K → K) (small : K → Bool) (m : Mat K) (h : SO3 m) (m0 : Mat K)
+    (hsq : ∀ x y : K, sqrt (x * x + y * y) * sqrt (x * x + y * y) = x * x + y * y) (h1 : sqrt 1 = 1) :
+    ∀ cv ∈ allConvs, small (eulerPivot sqrt cv m) = true →
+      (eulerPivotEntries cv m).1 = 0 → (eulerPivotEntries cv m).2 = 0 →
+      Eq3 (fromEuler cv (toEuler sqrt small cv m).1 (toEuler sqrt small cv m).2.1 (toEuler sqrt small cv m).2.2 m0) m := by
+  intro cv hcv hs z1 z2
+  simp only [allConvs, axes2tuple, List.map_cons, List.map_nil, List.mem_cons, List.mem_nil_iff, or_false] at hcv
+  rcases hcv with rfl | rfl | rfl | rfl | rfl | rfl | rfl | rfl | rfl | rfl | rfl | rfl | rfl | rfl | rfl | rfl | rfl | rfl | rfl | rfl | rfl | rfl | rfl | rfl
+  · exact to_euler_gimbal_row_sxyz sqrt small m h m0 hsq h1 hs z1 z2
+  · exact to_euler_gimbal_row_sxyx sqrt small m h m0 hsq h1 hs z1 z2
+  · exact to_euler_gimbal_row_sxzy sqrt small m h m0 hsq h1 hs z1 z2
+  · exact to_euler_gimbal_row_sxzx sqrt small m h m0 hsq h1 hs z1 z2
+  · exact to_euler_gimbal_row_syzx sqrt small m h m0 hsq h1 hs z1 z2
+  · exact to_euler_gimbal_row_syzy sqrt small m h m0 hsq h1 hs z1 z2
+  · exact to_euler_gimbal_row_syxz sqrt small m h m0 hsq h1 hs z1 z2
+  · exact to_euler_gimbal_row_syxy sqrt small m h m0 hsq h1 hs z1 z2
+  · exact to_euler_gimbal_row_szxy sqrt small m h m0 hsq h1 hs z1 z2
+  · exact to_euler_gimbal_row_szxz sqrt small m h m0 hsq h1 hs z1 z2
+  · exact to_euler_gimbal_row_szyx sqrt small m h m0 hsq h1 hs z1 z2
+  · exact to_euler_gimbal_row_szyz sqrt small m h m0 hsq h1 hs z1 z2
+  · exact to_euler_gimbal_row_rzyx sqrt small m h m0 hsq h1 hs z1 z2
+  · exact to_euler_gimbal_row_rxyx sqrt small m h m0 hsq h1 hs z1 z2
+  · exact to_euler_gimbal_row_ryzx sqrt small m h m0 hsq h1 hs z1 z2
+  · exact to_euler_gimbal_row_rxzx sqrt small m h m0 hsq h1 hs z1 z2
+  · exact to_euler_gimbal_row_rxzy sqrt small m h m0 hsq h1 hs z1 z2
+  · exact to_euler_gimbal_row_ryzy sqrt small m h m0 hsq h1 hs z1 z2
+  · exact to_euler_gimbal_row_rzxy sqrt small m h m0 hsq h1 hs z1 z2
+  · exact to_euler_gimbal_row_ryxy sqrt small m h m0 hsq h1 hs z1 z2
+  · exact to_euler_gimbal_row_ryxz sqrt small m h m0 hsq h1 hs z1 z2
+  · exact to_euler_gimbal_row_rzxz sqrt small m h m0 hsq h1 hs z1 z2
+  · exact to_euler_gimbal_row_rxyz sqrt small m h m0 hsq h1 hs z1 z2
+  · exact to_euler_gimbal_row_rzyz sqrt small m h m0 hsq h1 hs z1 z2
+
+end toeuler
 
 /-! ## masks of the operands carry into every result; leading shapes broadcast -/
 section lifting
